@@ -244,8 +244,9 @@ def run_property(pid, tier="quick", seed=0, only=None, verbose=False, do_bounded
     cov["known_findings_reported"] = knowns
     ev["violations"] = len(violations)
     ev["wall_s"] = round(time.time() - t0, 2)
-    os.makedirs(os.path.join(ROOT, "evidence"), exist_ok=True)
-    json.dump(ev, open(os.path.join(ROOT, "evidence", "%s.json" % pid), "w"), indent=1, default=str)
+    evdir = os.environ.get("VERIF_EVIDENCE_DIR") or os.path.join(ROOT, "evidence")     # (only tools/run_seeded.sh redirects it)
+    os.makedirs(evdir, exist_ok=True)
+    json.dump(ev, open(os.path.join(evdir, "%s.json" % pid), "w"), indent=1, default=str)
     return violations, knowns, undecided, ev
 
 
